@@ -1,13 +1,47 @@
 package c03
 
 import (
-	"fmt"
+	"context"
 
+	"google.golang.org/grpc/codes"
+	"google.golang.org/grpc/status"
+
+	"github.com/cosi-project/runtime/api/v1alpha1"
 	"github.com/cosi-project/runtime/pkg/state"
+	"github.com/cosi-project/runtime/pkg/state/protobuf/server"
 
 	"verifharness/sim"
 )
 
+// noNative answers Unimplemented for the Teardown RPCs so that the client's sticky fallback path runs.
+type noNative struct {
+	*server.State
+}
+
+func (noNative) Teardown(context.Context, *v1alpha1.TeardownRequest) (*v1alpha1.TeardownResponse, error) {
+	return nil, status.Error(codes.Unimplemented, "method Teardown not implemented")
+}
+
+func (noNative) TeardownAndDestroy(context.Context, *v1alpha1.TeardownAndDestroyRequest) (*v1alpha1.TeardownAndDestroyResponse, error) {
+	return nil, status.Error(codes.Unimplemented, "method TeardownAndDestroy not implemented")
+}
+
+// grpcVariant puts the gate proxy under a real gRPC server: every store call and watch hand-over the server makes on
+// behalf of any client is a scheduler step (actor "server"); the actors use one client adapter.
 func grpcVariant(variant string, s *sim.Sched) (func(string) state.State, func(), error) {
-	return nil, nil, fmt.Errorf("variant %s not built", variant)
+	px := s.Proxy("server")
+
+	var srv v1alpha1.StateServer = server.NewState(px)
+	if variant == "grpc-fallback" {
+		srv = noNative{server.NewState(px)}
+	}
+
+	pair, err := sim.NewGRPCPair(srv, nil)
+	if err != nil {
+		return nil, nil, err
+	}
+
+	st := state.WrapCore(pair.Adapter)
+
+	return func(string) state.State { return st }, pair.Close, nil
 }
